@@ -102,7 +102,7 @@ Verdict(e) ==
     [] op = "de_json" -> DeJsonOK(e.form, e.doc, e.r, cfg)
     [] op = "de_token" ->
          IF e.ty \in IntTypes THEN FromIntOK(ZOf(e.v), e.r)
-         ELSE IF e.ty \in {"bool", "char", "unit", "bytes"} THEN Chk(IsErr(e.r), "must-be-error")
+         ELSE IF e.ty \in {"bool", "unit", "bytes"} THEN Chk(IsErr(e.r), "must-be-error")   \* (a char token is a one-character string)
          ELSE IF e.ty = "f32" THEN FromFloatOK(ZOf(e.bits).m, 32, e.r)
          ELSE IF e.ty = "f64" THEN FromFloatOK(ZOf(e.bits).m, 64, e.r)
          ELSE IF IsNumeral(e.text) THEN ParseOK("from_str", e.text, 10, TRUE, e.r) ELSE Chk(IsErr(e.r), "must-be-error")
